@@ -239,7 +239,7 @@ def run_check(tier, seed):
         io_classes = [c for c in IO_CLASSES if c in clsval]
         explicit = set(c for c, _ in table['errmap']['explicit'])
         t1 = Timer()
-        watchdog = 5
+        watchdog = 8
         # baseline (count) runs
         base = {}
 
@@ -296,6 +296,11 @@ def run_check(tier, seed):
         req_lines, metas = [], []
         for (i, (scen, n, rank, k, cn, key)), (rc, logs, err) in results:
             l = logs[rank] if rank < len(logs) else None
+            if (l is None or l['inject'] is None) and not all(x['done'] for x in logs):
+                # a rank gave up (watchdog) before the fault had even fired: a slow start on a loaded machine, not a
+                # consequence of the fault -- run the case again with a generous watchdog
+                rc, logs, err = run_case(exe, wd, 'r%d' % i, scen, n, rank, k, clsval[cn], 45)
+                l = logs[rank] if rank < len(logs) else None
             call = None
             if l and l['inject'] is not None:
                 call = next((c for c in l['calls'] if c['idx'] == l['inject']), None)
